@@ -941,8 +941,7 @@ class SymExec(object):
             c = self.ev(s.test, st)
             for pol, body in ((True, s.body), (False, s.orelse)):
                 st2 = st.copy()
-                st2.conds.append((c, pol, s))
-                st2.events.append(('branch', c, pol, s))
+                record_cond(st2, c, pol, s)
                 for r in self.block(body, st2):
                     yield r
         elif isinstance(s, ast.For) and self.fold_loops and self._fold_loop(s, st):
@@ -1083,8 +1082,7 @@ class SymExec(object):
                     if known is not None and pol != known:
                         continue
                     st3 = st2.copy()
-                    st3.conds.append((c, pol, s))
-                    st3.events.append(('branch', c, pol, s))
+                    record_cond(st3, c, pol, s)
                     for r in self.block(body, st3):
                         yield r
 
@@ -1325,6 +1323,19 @@ def guards_of(st, ev):
     if r is not None and r[0] is ev:
         return r[1]
     return ()
+
+
+def record_cond(st, c, pol, node):
+    """record a passed test in elementary form: `not c` flips the polarity, a true conjunction / false disjunction is
+    recorded member by member; how a test is spelt (guard clause, De Morgan, nesting) then leaves no trace"""
+    if c[0] == 'unop' and c[1] == 'not':
+        return record_cond(st, c[2], not pol, node)
+    if c[0] == 'bool' and ((c[1] == 'and' and pol) or (c[1] == 'or' and not pol)):
+        for x in c[2]:
+            record_cond(st, x, pol, node)
+        return
+    st.conds.append((c, pol, node))
+    st.events.append(('branch', c, pol, node))
 
 
 def terms_of(st):
